@@ -644,7 +644,7 @@ impl<'a> Evaluator<'a> {
                     return None;
                 }
                 if f.system {
-                    if self.quirks.has(Quirk::GroupBySystemIgnored) {
+                    if f.ty != Ty::Base64 && self.quirks.has(Quirk::GroupBySystemIgnored) {
                         // grouped on a JSON member of that name, which never exists: constant NULL
                         return Some(SqlVal::Null);
                     }
@@ -742,7 +742,7 @@ impl<'a> Evaluator<'a> {
                     // member of the group: no order can be required on it
                     let dropped = |f: &FieldRef| {
                         (f.ty == Ty::Base64 && self.quirks.has(Quirk::GroupByBase64Ignored))
-                            || (f.system && self.quirks.has(Quirk::GroupBySystemIgnored))
+                            || (f.system && f.ty != Ty::Base64 && self.quirks.has(Quirk::GroupBySystemIgnored))
                     };
                     let arbitrary = match &o.target {
                         Target::Field(f) => dropped(f),
